@@ -109,4 +109,46 @@ example : assignOK false [p1] [eA] [eB] = true := by unfold assignOK; decide
 /-- leaving the pod without address although one is free is not an admitted outcome in single stack -/
 example : assignOK false [p1v4] [eA] [eA] = false := by unfold assignOK; decide
 
+/-! ## cloud drift: the full synchronisation's merge -/
+
+/-- an address known to both the record and the cloud keeps its recorded entry — in particular an address bound to a
+    pod stays bound and valid whatever state the cloud reports it in -/
+theorem c02_merge_keeps_known (remote current : List Entry) (x : Entry) (hx : x ∈ current)
+    (hr : ∃ r ∈ remote, r.ip = x.ip) : x ∈ mergeEntries remote current := by
+  unfold mergeEntries
+  refine List.mem_append_left _ (List.mem_filter.mpr ⟨hx, ?_⟩)
+  obtain ⟨r, hr, hip⟩ := hr
+  exact List.any_eq_true.mpr ⟨r, hr, by simp [hip]⟩
+
+/-- after the merge the record holds exactly the addresses the cloud reports -/
+theorem c02_merge_ips (remote current : List Entry) (ip : Nat) :
+    (∃ x ∈ mergeEntries remote current, x.ip = ip) ↔ (∃ r ∈ remote, r.ip = ip) := by
+  unfold mergeEntries
+  constructor
+  · rintro ⟨x, hx, rfl⟩
+    rcases List.mem_append.mp hx with h | h
+    · obtain ⟨_, hany⟩ := List.mem_filter.mp h
+      obtain ⟨r, hr, hip⟩ := List.any_eq_true.mp hany
+      exact ⟨r, hr, by simpa using hip⟩
+    · exact ⟨x, (List.mem_filter.mp h).1, rfl⟩
+  · rintro ⟨r, hr, rfl⟩
+    by_cases hc : current.any (·.ip == r.ip) = true
+    · obtain ⟨x, hx, hip⟩ := List.any_eq_true.mp hc
+      refine ⟨x, List.mem_append_left _ (List.mem_filter.mpr ⟨hx, List.any_eq_true.mpr ⟨r, hr, ?_⟩⟩), by simpa using hip⟩
+      have : x.ip = r.ip := by simpa using hip
+      simp [this]
+    · exact ⟨r, List.mem_append_right _ (List.mem_filter.mpr ⟨hr, by simpa using hc⟩), rfl⟩
+
+/-- the merge binds nothing: an entry of the result is a recorded entry or is what the cloud reported -/
+theorem c02_merge_no_new_binding (remote current : List Entry) (x : Entry) (hx : x ∈ mergeEntries remote current) :
+    x ∈ current ∨ x ∈ remote := by
+  unfold mergeEntries at hx
+  rcases List.mem_append.mp hx with h | h
+  · exact .inl (List.mem_filter.mp h).1
+  · exact .inr (List.mem_filter.mp h).1
+
+example : mergeEntries [{ ip := 1, status := .deleting, pod := "", uid := "", primary := false }, { ip := 3, status := .valid, pod := "", uid := "", primary := false }]
+    [{ ip := 1, status := .valid, pod := "p", uid := "u", primary := false }, { ip := 2, status := .valid, pod := "", uid := "", primary := false }] =
+    [{ ip := 1, status := .valid, pod := "p", uid := "u", primary := false }, { ip := 3, status := .valid, pod := "", uid := "", primary := false }] := by decide
+
 end Terway.Props.C02
